@@ -1,5 +1,5 @@
 """Property -> rules wiring.  Each function returns kwargs for Ctx.finish()."""
-from . import control, history, descent, warm, degenerate, feasible, plumb, matrix, storage, formulas, penalgebra, misc, extents
+from . import control, history, descent, warm, degenerate, feasible, plumb, matrix, storage, formulas, penalgebra, misc, extents, blockpen
 
 TB = ["CPython ast", "role seeds: positional parameters of BaseSolver._solve and the "
       "fixed slot-method names of the datafit/penalty interface"]
@@ -47,6 +47,7 @@ def c04(A, ctx, tier):
     feasible.r_pos(A, ctx, dict(floor=10))
     feasible.r_write(A, ctx, dict(floor=15))
     misc.r_zerocol(A, ctx, dict(floor=10))
+    blockpen.r_proxfoc_block(A, ctx, dict(floor=12), rule="R-NONNEG-BLOCK", parts=("nonneg",))
     ctx.assume("finiteness under overflow/cancellation is not decided")
     return dict(explanation="feasibility at every stopping point: only prox outputs, "
                 "guarded extrapolations, line-search combinations and the intercept are "
@@ -210,8 +211,11 @@ def c07(A, ctx, tier):
                     out.append(c.methods[m])
         return out
     degenerate.r_div(A, ctx, dict(floor=3), where=where, rule="R-DIV-PROX")
-    ctx.assume("global optimality of the closed forms prox_SCAD, prox_05, prox_2_3, prox_log_sum, "
-               "prox_SLOPE is an analytic result without structural clause: not claimed")
+    blockpen.r_proxfoc_block(A, ctx, dict(floor=250))
+    blockpen.r_proxfoc_scalar_region(A, ctx, dict(floor=60), only=blockpen.closed_form_classes())
+    ctx.assume("global optimality (as opposed to stationarity) of the closed forms prox_SCAD, prox_05, "
+               "prox_2_3, prox_log_sum, prox_block_2_05, prox_SLOPE is an analytic result without "
+               "structural clause: not claimed")
     return dict(explanation="prox_1d of every convex / MCP-type separable penalty is checked "
                 "against the penalty's own value(): first-order condition on every order region "
                 "(witness-selected branch, symbolic identity), zero output exactly below the kink "
@@ -235,9 +239,9 @@ def c08(A, ctx, tier):
                     out.append(f)
         return out
     degenerate.r_div(A, ctx, dict(floor=8), where=where, rule="R-DIV-SCORE")
+    blockpen.r_deriv_pen_block(A, ctx, dict(floor=180))
     ctx.assume("that the regular subdifferential is the right notion at non-convex kinks is a "
-               "mathematical fact, not decided; group/block scores are decided only through "
-               "their guards (R-DIV) - see DESIGN.md")
+               "mathematical fact, not decided")
     return dict(explanation="for every separable penalty and every order region of w_j the "
                 "lifted subdiff_distance equals |grad + d value/d w_j| (smooth regions), "
                 "max(0, |grad| - t) at the kink with t the one-sided limit of the derivative, +inf "
